@@ -406,6 +406,13 @@ def run(ctx):  # noqa: C901, PLR0912, PLR0915
 
     # ------------------------------------------------------------------ R5
     worker_loops_contained(ctx, 'C13.R5', WORKERS)
+    from .c09 import enqueue_is_bounded
+    enqueue_is_bounded(ctx, 'C13.R4')   # a request never waits for ever for a slot of the operations queue
+    from . import common
+    common.log_templates_are_constant(ctx, 'C13.R3', ['sdc11073.dispatch', 'sdc11073.httpserver', 'sdc11073.pysoap.msgreader',
+                                                      'sdc11073.provider.dpwshostedservice',
+                                                      'sdc11073.consumer.request_handler_deferred',
+                                                      'sdc11073.provider.servicesfactory', 'sdc11073.provider.porttypes'])
 
 
 WORKERS = ['sdc11073.consumer.request_handler_deferred.DispatchKeyRegistryDeferred._read_queue',
@@ -429,6 +436,27 @@ def worker_loops_contained(ctx, rule, workers):
             bad.extend(_uncontained_in_stmt(st))
         bad = [c for c in bad if call_name(c) not in ('get', 'is_set', 'sleep', 'info', 'debug', 'error', 'warning',
                                                       'exception', 'format_exc', 'getLogger')]
+        # what the outermost catch-all does itself must not raise either: it dereferences nothing that the failed message
+        # may have left unset (x.a.b on a message object, an index) - it logs names, constants and the traceback
+        deref = []
+        for st in w.body:
+            for t in ([st] if isinstance(st, ast.Try) else []):
+                for h in t.handlers:
+                    if not is_catch_all(h):
+                        continue
+                    for x in [y for b in h.body for y in ast.walk(b)]:
+                        if isinstance(x, ast.Subscript) and isinstance(x.ctx, ast.Load):
+                            deref.append(x)
+                        if isinstance(x, ast.Attribute) and isinstance(x.ctx, ast.Load) and not x.attr.startswith('__') and \
+                                isinstance(x.value, ast.Attribute) and not x.value.attr.startswith('__') and \
+                                (dotted(x.value.value) or '?').split('.')[0] not in ('self', 'traceback', 'logging') and \
+                                not isinstance(getattr(x, '_parent', None), ast.Call):
+                            deref.append(x)
+        if deref:
+            ctx.ob(rule, f'{fi.cls.name}.{fi.name} catch-all is total', False,
+                   f'{fi.name}: the catch-all that keeps the thread alive evaluates {[unparse(d) for d in deref][:3]}; for a '
+                   f'message where a part of that chain is None / missing the handler itself raises and the worker thread '
+                   f'ends - every later message stays unprocessed', fi=fi, node=deref[0])
         ctx.ob(rule, f'{fi.cls.name}.{fi.name} loop', not bad,
                f'{fi.name}: every call in the thread loop is inside a catch-all (the thread survives any message)'
                if not bad else f'{fi.name}: {[unparse(c.func) for c in bad][:4]} can raise outside a catch-all and '
